@@ -264,7 +264,7 @@ class BaseDensePauliString(raw_types.Gate, metaclass=abc.ABCMeta):
         if isinstance(other, (sympy.Basic, numbers.Number)):
             return self.__mul__(other)
 
-        if other := _try_interpret_as_dps(other):
+        if (other := _try_interpret_as_dps(other)) is not None:
             return other.__mul__(self)
 
         return NotImplemented
